@@ -40,8 +40,10 @@ def _do(c, name):
     return c.delete_many(["k1", "zz"], noreply=False)
 
 
-def h_pooled(which: int, fat: int, fk: int, g1: int, g2: int, tmo: int, ignore_exc: bool) -> int:
+def h_pooled(which: int, fat: int, fk: int, g1: int, g2: int, tmo: int, ignore_exc: bool, dur: int) -> int:
     """
+    dur: every recv takes `dur` time units (a call has a duration; idle time counts from the return to the pool).
+    pre: 0 <= dur <= 2
     pre: 0 <= which <= len(SEQ)
     pre: 0 <= fat <= 5
     pre: 0 <= fk < len(KINDS)
@@ -56,6 +58,8 @@ def h_pooled(which: int, fat: int, fk: int, g1: int, g2: int, tmo: int, ignore_e
     servers, _ = ops.fresh_servers(1)
     net = NetSim(servers, None)
     net.check_failed_reuse = True
+    net.clock = clk
+    net.recv_delay = dur
     c = PooledClient(ops.ADDR1, socket_module=net, max_pool_size=MAXPOOL or None, pool_idle_timeout=tmo,
                      ignore_exc=ignore_exc)
     gaps = (0, g1, g2)
